@@ -19,7 +19,8 @@ RULE = ('one case = one Configurator (exception classes with single/multiple inh
         'add_forbidden_view declarations with contexts, route binding, predicates, exception_only; optionally more '
         'declarations committed after the first batch of requests) x 6-12 requests through Router.__call__, each with a '
         'raising site (view body, secured view, root factory, tween, unmatched URL), a tween under the excview tween '
-        '(pass / raise / catch + request.invoke_exception_view() + raise) and optionally pre-set request.exception; '
+        '(pass / raise / catch + invoke_exception_view(reraise=, secure=), on the request itself or on ANOTHER request '
+        'object with request= / dispatch the same request twice) and optionally pre-set request.exception; '
         'non-trivial = the case declares >= 2 exception views, an exception view body ran on some request, and on another '
         'request the exception propagated to the caller; distinct by full case')
 ASSUMPTIONS = [
@@ -145,6 +146,13 @@ def gen_body(rng, excs, exc_view):
     return {'touch': rng.random() < 0.3, 'act': act}
 
 
+def _norm_under(u):
+    """older recorded cases carry ['catch', rr, sec, then] (no via flag)"""
+    if u and u[0] == 'catch' and len(u) == 4:
+        return [u[0], u[1], u[2], False, u[3]]
+    return u
+
+
 def _exc_decl(v):
     """the declaration can register an exception view"""
     return v['dir'] != 'view' or v['ctx'] in EXC_CTX_NAMES
@@ -210,8 +218,10 @@ def gen_case(rng):
     reqs = []
     for _ in range(rng.choice([6, 8, 10])):
         r = rng.random()
-        under = ['pass'] if r < 0.55 else ['raise', rng.randrange(nexc)] if r < 0.7 else \
-            ['catch', rng.random() < 0.4, rng.random() < 0.7, rng.randrange(nexc) if rng.random() < 0.6 else None]
+        under = ['pass'] if r < 0.5 else ['raise', rng.randrange(nexc)] if r < 0.62 else \
+            ['retry', rng.choice(['', 'v', 'zz'])] if r < 0.72 else \
+            ['catch', rng.random() < 0.4, rng.random() < 0.7, rng.random() < 0.4,
+             rng.randrange(nexc) if rng.random() < 0.6 else None]
         reqs.append({'phase': 0, 'route': rng.choice(rnames) if (rnames and rng.random() < 0.4) else None,
                      'vname': rng.choice(['', '', 'v', 'v', 'zz']), 'method': rng.choice(['GET', 'GET', 'POST']),
                      'xhr': rng.random() < 0.5, 'lang': rng.choice(['en', 'en', 'fr']),
@@ -305,10 +315,11 @@ def valid(case):
                 return False
             if not (r['root_raise'] is None or okid(r['root_raise'])) or not (r['preset'] is None or okid(r['preset'])):
                 return False
-            u = r['under']
+            u = _norm_under(r['under'])
             if not (u == ['pass'] or (len(u) == 2 and u[0] == 'raise' and okid(u[1]))
-                    or (len(u) == 4 and u[0] == 'catch' and isinstance(u[1], bool) and isinstance(u[2], bool)
-                        and (u[3] is None or okid(u[3])))):
+                    or (len(u) == 2 and u[0] == 'retry' and u[1] in VNAMES)
+                    or (len(u) == 5 and u[0] == 'catch' and isinstance(u[1], bool) and isinstance(u[2], bool)
+                        and isinstance(u[3], bool) and (u[4] is None or okid(u[4])))):
                 return False
         return True
     except Exception:
@@ -346,10 +357,12 @@ def shrinks(case):
                           ('route', None), ('method', 'GET'), ('under', ['pass']), ('phase', 0), ('vname', '')):
             if r.get(k, simple) != simple:
                 yield putr(dict(r, **{k: simple}))
-        if r['under'][0] == 'catch' and r['under'][3] is not None:
-            yield putr(dict(r, under=['catch', r['under'][1], r['under'][2], None]))
+        if r['under'][0] == 'catch' and r['under'][4] is not None:
+            yield putr(dict(r, under=r['under'][:4] + [None]))
         if r['under'][0] == 'catch' and not r['under'][2]:
-            yield putr(dict(r, under=['catch', r['under'][1], True, r['under'][3]]))
+            yield putr(dict(r, under=['catch', r['under'][1], True] + r['under'][3:]))
+        if r['under'][0] == 'catch' and r['under'][3]:
+            yield putr(dict(r, under=r['under'][:3] + [False, r['under'][4]]))
     for i, x in enumerate(case['excs']):
         if x['marks']:
             yield dict(case, excs=case['excs'][:i] + [dict(x, marks=[])] + case['excs'][i + 1:])
@@ -625,15 +638,25 @@ class World:
         md = [[['lang', r.get('lang', 'en')]]] if r['route'] else []
         rq = [r['method'], params, headers, r['xhr'], md, False, req.upath_info, [['', []]], True,
               rx, [], sorted(r['truth']), rsro, csro, r['vname']]
-        u = r['under']
-        wu = [0] if u[0] == 'pass' else [1, u[1]] if u[0] == 'raise' else [2, u[1], u[2], [] if u[3] is None else [u[3]]]
+        u = _norm_under(r['under'])
+        wu = [0] if u[0] == 'pass' else [1, u[1]] if u[0] == 'raise' else [3] if u[0] == 'retry' else \
+            [2, u[1], u[2], u[3], [] if u[4] is None else [u[4]]]
+        rq2 = []
+        if u[0] == 'retry':
+            # second dispatch of the same request object: path_info rewritten to an unrouted path; the route mapper
+            # leaves matchdict / environ['bfg.routes.*'] of the first dispatch in place, so a first dispatch through a
+            # *traverse route still decides the traversal path of the second one
+            vn2 = r['vname'] if r['route'] else u[1]
+            r2sro = [self.iid(i) for i in P['IRequest'].__sro__]
+            rq2 = [[r['method'], params, headers, r['xhr'], md, False, '/' + u[1], [['', []]], True,
+                    rx, [], sorted(r['truth']), r2sro, csro, vn2]]
         unr = [self.iid(i) for i in P['IRequest'].combined.__sro__]
-        return [r['phase'], rq, comb, unr, r['deny'], [] if r['root_raise'] is None else [r['root_raise']], wu,
+        return [r['phase'], rq, rq2, comb, unr, r['deny'], [] if r['root_raise'] is None else [r['root_raise']], wu,
                 [] if r['preset'] is None else [r['preset']]]
 
     def run(self, r):
         req = self.request(r)
-        env = A.Env(self, {'under': r['under'], 'preset': r['preset'], 'root_raise': r['root_raise'],
+        env = A.Env(self, {'under': _norm_under(r['under']), 'preset': r['preset'], 'root_raise': r['root_raise'],
                            'deny': r['deny'], 'truth': set(r['truth'])})
         req.environ['c14'] = env
         outer = None
@@ -778,7 +801,7 @@ def classify(case, obs, spec):
         return None
     decl = {v['tag']: v for v in case['views']}
     for r, tr, p in bad:
-        u = r['under']
+        u = _norm_under(r['under'])
         if p[3] != 1 or u[0] != 'catch' or u[2]:
             return None
         pre = []
@@ -815,6 +838,7 @@ def kinds(case, obs):
         return ['harness-exc']
     act_of = {v['tag']: v['body']['act'][0] for v in case['views']}
     for r, tr in zip(case['requests'], obs):
+        r = dict(r, under=_norm_under(r['under']))
         f = _final(tr)
         if f is None:
             k.append('req:odd')
@@ -842,6 +866,8 @@ def kinds(case, obs):
             k.append('no-view:propagated' + ('-attrs-preset' if any(s for s in f[2]) else ''))
         if r['preset'] is not None:
             k.append('req:preset')
+        if r['under'][0] == 'retry':
+            k.append('req:dispatched-twice' + ('-first-routed' if r['route'] else ''))
         if r['phase'] == 1:
             k.append('req:phase1')
         if r['route']:
@@ -851,6 +877,8 @@ def kinds(case, obs):
             k.append('arrive:falsy-exception' + ('-propagated' if o[0] == 2 else ''))
         if any(e[0] == 1 for e in tr):
             k.append('req:iev-in-tween' + ('' if r['under'][2] else '-secure-false'))
+            if r['under'][3]:
+                k.append('req:iev-called-on-another-request' + ('-routed' if r['route'] else ''))
         if o[0] == 2 and o[1] in (1013, 1023):
             k.append('final:secured-excview-refused')
         if any(e[0] == 0 and e[2] == A.CTX_RESOURCE and act_of.get(e[1]) == 'ctx' for e in tr):
@@ -900,7 +928,7 @@ def targeted(broken, disagreements, rng):
             for r in c['requests']:
                 r['preset'] = rng.randrange(nexc)
                 if rng.random() < 0.5:
-                    r['under'] = ['catch', rng.random() < 0.5, rng.random() < 0.7, rng.randrange(nexc)]
+                    r['under'] = ['catch', rng.random() < 0.5, rng.random() < 0.7, rng.random() < 0.4, rng.randrange(nexc)]
             c['views'] = [v for v in c['views'] if not _exc_decl(v) or rng.random() < 0.4]
         elif k == 1:
             xs = [v for v in c['views'] if _exc_decl(v) and v['phase'] == 0]
